@@ -12,7 +12,7 @@ import (
 
 func (e *Engine) newFnCtx(key string, fn *ssa.Function, c *FuncContract) *FnCtx {
 	fc := &FnCtx{e: e, fn: fn, c: c, key: key, short: shortKey(key), declSet: map[string]bool{}, base: map[string]Term{}, baseSort: map[string]string{},
-		modset: map[string][]Term{}, modpred: map[string][]string{}, modAll: map[string]bool{}, trusted: map[string]bool{}, params: map[string]CVal{}, counter: map[string]int{},
+		modset: map[string][]Term{}, modpred: map[string][]string{}, modAll: map[string]bool{}, trusted: map[string]bool{}, params: map[string]CVal{}, counter: map[string]int{}, atCallSeen: map[*AtCall]bool{},
 		callees: map[string]bool{}, derived: map[string]bool{}}
 	if c != nil {
 		fc.props = c.Props
@@ -61,7 +61,35 @@ func (e *Engine) VerifyFunc(c *FuncContract) *FnCtx {
 		fr.vals[p] = bindParam(p.Name(), withReg(p.Type(), e.regionOf(p)))
 	}
 	for _, fv := range fn.FreeVars {
-		fr.vals[fv] = bindParam(fv.Name(), fv.Type())
+		v := bindParam(fv.Name(), fv.Type())
+		fr.vals[fv] = v
+		if v.Sort == SInt && isRefType(fv.Type()) {
+			fc.fact(not(eq(v.S, "0"))) // a captured variable is a cell: its address is never nil
+		}
+	}
+	for _, ft := range e.specs.FuncTypes {
+		if len(ft.Requires) == 0 {
+			continue
+		}
+		t, _, err := e.resolveType(ft.Type, ft.Pkg)
+		if err != nil || t == nil || !types.Identical(t.Underlying(), fn.Signature) {
+			continue
+		}
+		// a function of a function type under contract is only ever called through that type (or with
+		// the same precondition checked): it may assume the type's precondition
+		renv := &Env{fc: fc, pkg: ft.Pkg, vars: map[string]CVal{}, bound: map[string]CVal{}, st: st, old: st}
+		for q, p := range fn.Params {
+			renv.vars[fmt.Sprintf("$%d", q)] = fc.params[p.Name()]
+		}
+		for _, cl := range ft.Requires {
+			tt, err := renv.evalBool(cl.Expr)
+			if err != nil {
+				fc.unsupported("functype %s requires: %v", ft.Type, err)
+				continue
+			}
+			fc.fact(tt.S)
+			fc.trusted["function type "+ft.Type+": "+cl.Src+" (checked at every call through the type, assumed by its implementations)"] = true
+		}
 	}
 	fr.old = st.clone()
 	// nil maps are empty; globals etc. handled lazily
@@ -166,6 +194,43 @@ func (e *Engine) VerifyFunc(c *FuncContract) *FnCtx {
 	cov.Cover = true
 	cov.Src = "precondition is satisfiable (vacuity guard)"
 	fr.run(st, "true")
+	for _, ac := range c.AtCalls {
+		if !fc.atCallSeen[ac] {
+			fc.unsupported("binding: atcall %s: the function contains no call of %s", ac.Callee, ac.Callee)
+		}
+	}
+	if only := c.Opts["obligations"]; only != "" {
+		// The body is outside the subset except for the listed kinds of obligations (for example the
+		// assertions attached to call sites): everything the unmodelled calls may touch is havoced, so
+		// the other obligations would be meaningless and are not generated, not claimed, and reported
+		// as such in the evidence.
+		var keep []*Oblig
+		for _, o := range fc.obligs {
+			ok := o.Kind == "cover"
+			for _, w := range strings.Fields(only) {
+				// kind or kind:name-substring
+				k, sub := w, ""
+				if i := strings.Index(w, ":"); i >= 0 {
+					k, sub = w[:i], w[i+1:]
+				}
+				if o.Kind == k && strings.Contains(o.Name, sub) {
+					ok = true
+				}
+			}
+			if ok {
+				keep = append(keep, o)
+			}
+		}
+		fc.obligs = keep
+		fc.assumes = append(fc.assumes, shortKey(c.Key)+": only obligations of kind ["+only+"] are generated for this function; its unmodelled calls havoc the heap, safety and frame of its body are NOT claimed")
+		var unsup []string
+		for _, u := range fc.unsup {
+			if strings.HasPrefix(u, "binding:") || strings.HasPrefix(u, "atcall") {
+				unsup = append(unsup, u)
+			}
+		}
+		fc.unsup = unsup
+	}
 	for _, u := range fc.unsup {
 		o := fc.oblig("binding", "binding.subset", "false", "true", fn.Pos(), nil)
 		o.Src = "outside the verifier's subset: " + u
